@@ -7,12 +7,14 @@ PROPS["C17"] = dict(
     level_note="Trusts gobgp's own UPDATE parser on the receiving side and the Loc-RIB's ranking of the paths of one destination (C02/C03): the model "
                "decides WHICH routes a view holds, the version is identified by a tag community. Attribute rewriting on export is not modelled. While a "
                "neighbour's documented rtc deferral is pending only 'nothing ineligible is held' is required. Every event is followed by synctest.Wait "
-               "(no pile-up of events in the pipes; coalescing is C01's subject), which also lets a difference be attributed to the event that caused it.",
+               "(no pile-up of events in the pipes; coalescing is C01's subject; concurrency comes from the race events and the yield hook), which also lets a difference be attributed to the event that caused it.",
     technique="runtime model-based monitor: relational reference model (routes x VRFs x memberships) vs ListPath(GLOBAL/VRF) and per-peer accumulated wire views at exact quiescence (synctest.Wait)",
     rule="case = one history (1-2 PE, 1-2 RTC, 0-2 CE speakers of kinds RR client / eBGP, with and without ADD-PATH receive and rtc deferral; 40-200 events: "
          "VPN announce/replace/withdraw/duplicate, membership announce/withdraw incl. default, duplicates, other origin AS, never-announced, import-policy "
          "rejected; AddVrf/DeleteVrf; API routes global and in a VRF; CE routes; flaps, for half of the PE speakers with graceful restart negotiated (routes retained as stale copies until the "
-         "restart timer or the returning speaker's End-of-RIBs); soft-reset-in of any neighbour, with and without an attribute-modifying import policy; ticks), compared every 5-20 events; a comparison is non-trivial "
+         "restart timer or the returning speaker's End-of-RIBs); soft-reset-in of any neighbour, with and without an attribute-modifying import policy; "
+         "race events (an rtc speaker's membership announce/withdraw and another speaker's withdraw/replace/announce of VPN routes carrying that target written at the "
+         "same instant from separate goroutines); Gosched-only scheduler yields at gobgp's lock-free points (recv, send, bucket, walk) in every history; ticks), compared every 5-20 events; a comparison is non-trivial "
          "iff >=1 membership or VRF change happened since the previous one; distinct by hash of (change-kind sequence, peer configuration)",
     assumptions=["route targets are compared by their 8 octets; 'transitive' is bit 0x40 of the type octet clear (RFC 4360/7153)",
                  "an RT membership counts when the import policy accepts it; the default membership is the zero-length NLRI 0:0/0",
@@ -31,6 +33,7 @@ PROPS["C17"] = dict(
                 "ev_rtm-withdraw-never-announced", "ev_rtm-announce-rejected-by-policy", "ev_rtc-eor", "ev_addvrf", "ev_delvrf",
                 "ev_delvrf-with-local-routes", "ev_api-add-global", "ev_api-add-vrf", "ev_ce-announce", "ev_ce-withdraw", "ev_flap", "ev_reestablish", "ev_flap-graceful", "ev_gr-back-in-time", "ev_gr-timer-expired",
                 "ev_gr-eor-ends-restart", "ev_soft-reset-in", "histories_with_modifying_import_policy",
+                "ev_race", "ev_race-membership-announce", "ev_race-membership-withdraw", "ev_race-route-changes", "scheduler_yields",
                 "ev_fam-l3vpn-ipv4-unicast", "ev_fam-l2vpn-evpn"],
     min_nontrivial=20,
     units=[dict(name="sim", harness="t_server", files=["sim_", "c17_"], run="TestVerifC17",
